@@ -37,6 +37,9 @@ func init() {
 				MinConcl:    pick(tier, 90, 7000)}
 		},
 		Name: func(c *harness.Case) string {
+			if c.Index%48 == 4 {
+				return "large-catch-up"
+			}
 			switch k := c.Index % 12; {
 			case k == 11:
 				return "overflow-hooked"
@@ -53,6 +56,8 @@ func init() {
 				runC05Overflow(c, true)
 			case "overflow-unhooked":
 				runC05Overflow(c, false)
+			case "large-catch-up":
+				runC05LargeCatchUp(c)
 			case "placement":
 				runC05Placement(c)
 			default:
@@ -875,4 +880,46 @@ func runC05Overflow(c *harness.Case, hooked bool) {
 	c.AddSet("consumers", "overflowing")
 	c.Fingerprint(atomic.LoadInt32(&slow) > 0, "overflow", hooked, len(got), closed)
 	c.R.Sample = map[string]interface{}{"hooked": hooked, "writes": len(all), "received": len(got), "closed_by_node": closed, "drops": atomic.LoadInt32(&slow)}
+}
+
+// runC05LargeCatchUp: a watch that has to catch up on more cached history than fits into its result channel in
+// default-sized batches (more than 100 x 300 events, a count that is not a multiple of 100): the backlog has to be
+// re-batched so that registering the watch does not block, and every event must still arrive once, in order.
+func runC05LargeCatchUp(c *harness.Case) {
+	r := c.Rng
+	rg := newWatchRig(c, "memkv", 0, nil, true)
+	if rg == nil {
+		return
+	}
+	defer rg.close()
+	P := harness.Prefix + "/p/"
+	n := 30001 + r.Intn(400)
+	if n%100 == 0 {
+		n++
+	}
+	key := P + "big"
+	out := rg.do(harness.SeqOp{Kind: "create", Key: key, Val: []byte("v0")}, false)
+	first, last := out.Rev, out.Rev
+	for i := 1; i < n; i++ {
+		o := rg.do(harness.SeqOp{Kind: "update", Key: key, Val: []byte("v"), Exp: last}, false)
+		if o.Err != "" || !o.Succeeded {
+			c.Inconclusive("set-up write failed: " + o.String())
+			return
+		}
+		last = o.Rev
+	}
+	rg.n.WaitCommitted(last, 60*time.Second)
+	w := rg.register(0, first, "oldest", P, "fast", r)
+	w.quiescentReg = true
+	sent, ok := rg.finish([]*wwatcher{w})
+	if !ok {
+		return
+	}
+	all := rg.truth.sorted()
+	rg.judge(w, all, sent, [2]uint64{first, last}, false, map[string]interface{}{"cache_size": "default", "engine": "memkv", "backlog": n})
+	got, _ := w.snapshot()
+	c.Stat("large_catch_up_events_delivered", int64(len(got)))
+	c.AddSet("start_kinds", "oldest(large backlog)")
+	c.Fingerprint(len(got) >= n, "large-catch-up", n)
+	w.cancel()
 }
